@@ -1,12 +1,20 @@
 /-
   C10 — Voigt/standard index algebra is a canonical 21-class quotient of the 81 tuples.
 
-  Every statement below is about `CijModel/Voigt.lean`, whose table is `Generated.voigtToStandard`
+  The statements `c10_*` are about `CijModel/Voigt.lean`, whose table is `Generated.voigtToStandard`
   (re-translated from `cij/util/voigt.py` on every run).  Finite quantifiers are stated over ℤ with
   range hypotheses and discharged by kernel evaluation over the complete domain (`decide +kernel`,
   no axioms beyond propext/Quot.sound) plus the membership lemmas of `Lemmas/Voigt.lean`.
+
+  The statements `voigt_model_is_source*` / `voigt_source_*` (second half) are about the TRANSLATED SOURCE:
+  `Generated.VoigtSrc.module` is the whole of `cij/util/voigt.py`, re-emitted from its `ast` on every run as a `PyLite.Module`
+  literal and given meaning by the evaluator `PyLite.eval` (`CijModel/PyLite.lean`, the same code the driver runs against
+  CPython).  `voigt_model_is_source` says the hand-written model and the translated source agree on the complete finite
+  domain; the `voigt_source_*` theorems restate the clauses of the property about the source itself, so they are theorems about
+  what the file says now (relative to the evaluator's semantics, which the harness tests against CPython on every run).
 -/
 import CijProofs.Lemmas.Voigt
+import CijProofs.Lemmas.VoigtSrc
 namespace Cij.C10
 
 open Cij
@@ -191,6 +199,191 @@ theorem c10_reject_spellings :
     (∀ s ∈ ["", "0", "7", "14", "41", "04", "123", "a"], Strain.create [.str s] = none) ∧
     (∀ n ∈ ([0, 7, 8, 9, -1, 14, 41, 40, 123] : List Int), Strain.create [.int n] = none) := by
   decide +kernel
+
+/-! ## The translated source (`Generated.VoigtSrc.module` under `PyLite.eval`) -/
+
+section Source
+open Cij.VoigtSrc
+
+/-- **model = source on the complete finite domain.**  For every spelling in `domainC` (4 indices 0..4 and 2 Voigt indices 0..7,
+each positional / str / int; one-argument ints −2..11, malformed strings, long and negative ints; wrong arities) and in `domainE`:
+running the translated `cij.util.c_` / `e_` gives the value the model gives, or both reject.  Out-of-fuel / unsupported agree with
+nothing, so the evaluator answered on every input. -/
+theorem voigt_model_is_source :
+    (∀ a ∈ domainC, agreeWith valToModulus (c_ a) (Modulus.create a) = true) ∧
+    (∀ a ∈ domainE, agreeWith valToStrain (e_ a) (Strain.create a) = true) :=
+  ⟨domainC_agrees, List.all_eq_true.mp domainE_agrees⟩
+
+/-- the domain of `voigt_model_is_source` contains every spelling the property names -/
+example : ([.int 1, .int 1, .int 2, .int 3] : List Arg) ∈ domainC ∧ [Arg.str "2311"] ∈ domainC ∧ [Arg.int 46] ∈ domainC ∧
+    [Arg.int 4, .int 1, .int 1, .int 1] ∈ domainC ∧ [Arg.int 7, .int 0] ∈ domainC ∧ [Arg.str "1a"] ∈ domainC ∧
+    [Arg.int 3, .int 1] ∈ domainE ∧ [Arg.str "6"] ∈ domainE ∧ domainC.length = 1980 ∧ domainE.length = 115 := by
+  decide +kernel
+
+/-- the keys the source builds for the 81 tuples, 36 pairs, 9 strain pairs and 6 strain indices are the model's -/
+theorem voigt_model_is_source_keys :
+    (∀ t ∈ allTuples, srcKey4 t = key4 t) ∧ (∀ p ∈ allPairs, srcKey2 p = key2 p) ∧
+    (∀ i ∈ idx3, ∀ j ∈ idx3, srcStrain2 i j = Strain.fromStandard i j) ∧ (∀ v ∈ idx6, srcStrain1 v = Strain.fromVoigt v) :=
+  ⟨src_table4, src_table2, src_tableE.1, src_tableE.2⟩
+
+/-- every view of each of the 21 keys read off the source (`.voigt .standard .multiplicity .is_* .calc_type`) is the model's -/
+theorem voigt_model_is_source_views : ∀ p ∈ keys21,
+    srcVoigt (keyOfVoigt p) = ((keyOfVoigt p).voigt.map fun (a, b) => [a, b]) ∧
+    srcStandard (keyOfVoigt p) = some (let (a, b, c, d) := (keyOfVoigt p).standard; [a, b, c, d]) ∧
+    srcMultiplicity (keyOfVoigt p) = some (Int.ofNat (keyOfVoigt p).multiplicity) ∧
+    srcFlag "is_longitudinal" (keyOfVoigt p) = some (keyOfVoigt p).isLongitudinal ∧
+    srcFlag "is_off_diagonal" (keyOfVoigt p) = some (keyOfVoigt p).isOffDiagonal ∧
+    srcFlag "is_shear" (keyOfVoigt p) = some (keyOfVoigt p).isShear ∧
+    srcCalcType (keyOfVoigt p) = some (calcName (keyOfVoigt p).calcType) := by
+  intro p hp
+  have hm : ∀ p ∈ keys21, ((keyOfVoigt p).voigt.map fun (a, b) => [a, b]) = some [p.1, p.2] ∧
+      (let (a, b, c, d) := (keyOfVoigt p).standard; [a, b, c, d]) = stdOf p.1 ++ stdOf p.2 := by decide +kernel
+  obtain ⟨h1, h2, h3, h4, h5, h6, h7, _⟩ := src_views p hp
+  exact ⟨h1.trans (hm p hp).1.symm, h2.trans (congrArg some (hm p hp).2.symm), h3, h4, h5, h6, h7⟩
+
+/-! #### the clauses of C10, restated about the translated source -/
+
+/-- 81 tuples and 36 pairs map ONTO exactly 21 distinct keys -/
+theorem voigt_source_canonical_21 :
+    (∀ t ∈ allTuples, ∃ p ∈ keys21, srcKey4 t = some (keyOfVoigt p)) ∧
+    (∀ q ∈ allPairs, ∃ p ∈ keys21, srcKey2 q = some (keyOfVoigt p)) ∧
+    (∀ p ∈ keys21, (∃ t ∈ allTuples, srcKey4 t = some (keyOfVoigt p)) ∧ (∃ q ∈ allPairs, srcKey2 q = some (keyOfVoigt p))) ∧
+    keys21.length = 21 ∧ (keys21.map keyOfVoigt).Nodup := by
+  refine ⟨fun t ht => ?_, fun q hq => ?_, fun p hp => ⟨?_, ?_⟩, c10_21_distinct.1, c10_21_distinct.2⟩
+  · rw [src_table4 t ht]; exact c10_tuples_into_21 t ht
+  · rw [src_table2 q hq]; exact c10_pairs_into_21 q hq
+  · obtain ⟨t, ht, h⟩ := (c10_21_onto p hp).1; exact ⟨t, ht, (src_table4 t ht).trans h⟩
+  · obtain ⟨q, hq, h⟩ := (c10_21_onto p hp).2; exact ⟨q, hq, (src_table2 q hq).trans h⟩
+
+/-- two tuples get the same key from the source iff they are related by the minor / major symmetries -/
+theorem voigt_source_eq_iff_orbit : ∀ s ∈ allTuples, ∀ t ∈ allTuples, (srcKey4 s = srcKey4 t ↔ t ∈ orbit s) := by
+  intro s hs t ht
+  rw [src_table4 s hs, src_table4 t ht]; exact c10_eq_iff_orbit s hs t ht
+
+theorem voigt_source_pair_eq_iff : ∀ p ∈ allPairs, ∀ q ∈ allPairs, (srcKey2 p = srcKey2 q ↔ (q = p ∨ q = (p.2, p.1))) := by
+  intro p hp q hq
+  rw [src_table2 p hp, src_table2 q hq]; exact c10_pair_eq_iff p hp q hq
+
+/-- string, integer, two-index and four-index spellings of the same component give the same key -/
+theorem voigt_source_spellings :
+    (∀ t ∈ allTuples, decodeC (c_ [.str (tupleStr t)]) = srcKey4 t ∧ decodeC (c_ [.int (tupleInt t)]) = srcKey4 t) ∧
+    (∀ p ∈ allPairs, decodeC (c_ [.str (pairStr p)]) = srcKey2 p ∧ decodeC (c_ [.int (pairInt p)]) = srcKey2 p) ∧
+    (∀ p ∈ allPairs, ∀ a b, Strain.fromVoigt p.1 = some a → Strain.fromVoigt p.2 = some b →
+        srcKey2 p = srcKey4 (a.i, a.j, b.i, b.j)) := by
+  have e4 : ∀ t ∈ allTuples, tupleStr t = digitsStr [t.1, t.2.1, t.2.2.1, t.2.2.2] ∧
+      tupleInt t = digitsInt [t.1, t.2.1, t.2.2.1, t.2.2.2] := by decide +kernel
+  have e2 : ∀ p ∈ allPairs, pairStr p = digitsStr [p.1, p.2] ∧ pairInt p = digitsInt [p.1, p.2] := by decide +kernel
+  have e3' : ∀ p ∈ allPairs, (match Strain.fromVoigt p.1, Strain.fromVoigt p.2 with
+      | some a, some b => decide ((a.i, a.j, b.i, b.j) ∈ allTuples)
+      | _, _ => true) = true := by decide +kernel
+  have e3 : ∀ p ∈ allPairs, ∀ a b, Strain.fromVoigt p.1 = some a → Strain.fromVoigt p.2 = some b →
+      (a.i, a.j, b.i, b.j) ∈ allTuples := by
+    intro p hp a b ha hb
+    have := e3' p hp
+    rw [ha, hb] at this
+    exact of_decide_eq_true this
+  refine ⟨fun t ht => ?_, fun p hp => ?_, fun p hp a b ha hb => ?_⟩
+  · rw [(e4 t ht).1, (e4 t ht).2]; exact src_spell4 t ht
+  · rw [(e2 p hp).1, (e2 p hp).2]; exact src_spell2 p hp
+  · rw [src_table2 p hp, src_table4 _ (e3 p hp a b ha hb)]; exact c10_two_vs_four p hp a b ha hb
+
+/-- round trip through the Voigt and the standard view (1→11, 2→22, 3→33, 4→23, 5→13, 6→12 — the map as translated), and
+canonical ordering: whatever the order of the arguments, the Voigt view of the key is ascending -/
+theorem voigt_source_roundtrip :
+    (∀ p ∈ keys21, srcKey2 p = some (keyOfVoigt p) ∧ srcVoigt (keyOfVoigt p) = some [p.1, p.2] ∧
+        srcStandard (keyOfVoigt p) = some (stdOf p.1 ++ stdOf p.2) ∧
+        srcKey4 (keyOfVoigt p).standard = some (keyOfVoigt p)) ∧
+    (∀ q ∈ allPairs, (srcKey2 q).bind srcVoigt = some [min q.1 q.2, max q.1 q.2]) ∧
+    (∀ t ∈ allTuples, ascending ((srcKey4 t).bind srcVoigt) = true) ∧
+    ([1, 2, 3, 4, 5, 6].map stdOf = [[1, 1], [2, 2], [3, 3], [2, 3], [1, 3], [1, 2]]) := by
+  have hk : ∀ p ∈ keys21, p ∈ allPairs ∧ (keyOfVoigt p).standard ∈ allTuples := by decide +kernel
+  refine ⟨fun p hp => ⟨?_, (src_views p hp).1, (src_views p hp).2.1, ?_⟩, src_canonical_order.1, src_canonical_order.2,
+    by decide +kernel⟩
+  · rw [src_table2 p (hk p hp).1]; exact (c10_roundtrip p hp).2.2
+  · rw [src_table4 _ (hk p hp).2]; exact (c10_roundtrip p hp).2.1
+
+/-- the multiplicity the source computes for a key is the number of tuples the source maps to it; the 21 multiplicities sum to 81 -/
+theorem voigt_source_multiplicity :
+    (∀ p ∈ keys21, srcMultiplicity (keyOfVoigt p) =
+        some (Int.ofNat (allTuples.filter fun t => srcKey4 t == some (keyOfVoigt p)).length)) ∧
+    ((keys21.map fun p => (srcMultiplicity (keyOfVoigt p)).getD 0).sum = 81) := by
+  have hf : ∀ k, (allTuples.filter fun t => srcKey4 t == some k) = (allTuples.filter fun t => key4 t == some k) := by
+    intro k; apply List.filter_congr; intro t ht; rw [src_table4 t ht]
+  refine ⟨fun p hp => ?_, ?_⟩
+  · rw [(src_views p hp).2.2.1, hf, c10_multiplicity p hp]; rfl
+  · have : (keys21.map fun p => (srcMultiplicity (keyOfVoigt p)).getD 0) =
+        (keys21.map fun p => Int.ofNat (keyOfVoigt p).multiplicity) := by
+      apply List.map_congr_left; intro p hp; rw [(src_views p hp).2.2.1]; rfl
+    rw [this]; decide +kernel
+
+/-- longitudinal / off-diagonal / shear as the source computes them partition the 21 keys 3 / 3 / 15, and `calc_type` names the
+class -/
+theorem voigt_source_classification :
+    (∀ p ∈ keys21,
+      srcFlag "is_longitudinal" (keyOfVoigt p) = some (p.1 == p.2 && p.1 ≤ 3) ∧
+      srcFlag "is_off_diagonal" (keyOfVoigt p) = some (p.1 != p.2 && p.2 ≤ 3) ∧
+      srcFlag "is_shear" (keyOfVoigt p) = some (decide (4 ≤ p.2)) ∧
+      srcCalcType (keyOfVoigt p) =
+        some (if p.2 ≤ 3 then (if p.1 = p.2 then "LONGITUDINAL" else "OFF_DIAGONAL") else "SHEAR")) ∧
+    (keys21.filter fun p => p.1 == p.2 && p.1 ≤ 3).length = 3 ∧
+    (keys21.filter fun p => p.1 != p.2 && p.2 ≤ 3).length = 3 ∧
+    (keys21.filter fun p => decide (4 ≤ p.2)).length = 15 := by
+  refine ⟨fun p hp => ?_, by decide +kernel, by decide +kernel, by decide +kernel⟩
+  obtain ⟨_, _, _, h4, h5, h6, h7, _⟩ := src_views p hp
+  obtain ⟨m1, m2, m3, m4⟩ := c10_classification_meaning p hp
+  refine ⟨h4.trans (congrArg some m1), h5.trans (congrArg some m2), h6.trans (congrArg some m3), h7.trans ?_⟩
+  rw [m4]
+  by_cases a : p.2 ≤ 3 <;> by_cases b : p.1 = p.2 <;> simp [a, b, calcName]
+
+/-- `repr` of the 21 keys and of the 6 strains as the source formats them: Voigt digits, standard digits in parentheses -/
+theorem voigt_source_repr :
+    (∀ p ∈ keys21, strOfR (srcRepr (keyOfVoigt p)) = some (reprSpec p)) ∧
+    (∀ v ∈ idx6, ∃ s, Strain.fromVoigt v = some s ∧ strOfR (srcReprE s) = some (reprSpecE v)) ∧
+    reprSpec (1, 4) = "14(1123)" ∧ reprSpec (6, 6) = "66(1212)" ∧ reprSpecE 5 = "5(13)" := by
+  refine ⟨fun p hp => (src_views p hp).2.2.2.2.2.2.2, fun v hv => ?_, by decide +kernel, by decide +kernel, by decide +kernel⟩
+  obtain ⟨s, h1, _, _, h4⟩ := src_viewsE v hv
+  exact ⟨s, h1, h4⟩
+
+/-! #### out-of-range indices are rejected by the source — for every integer, by evaluating the AST with symbolic arguments -/
+
+/-- `StrainRepresentation.from_voigt(v)` raises RuntimeError for EVERY integer outside 1..6 -/
+theorem voigt_source_rejects_voigt (v : Int) (h : ¬(1 ≤ v ∧ v ≤ 6)) :
+    excKind (srcFun "StrainRepresentation" "from_voigt" [.int v]) = some "RuntimeError" ∧ Strain.fromVoigt v = none :=
+  ⟨src_from_voigt_rejects v h, c10_reject_strain_voigt v h⟩
+
+/-- `e_(v)` raises RuntimeError for every integer below 10 outside 1..6 (from 10 on the source spells the digits: decided domain) -/
+theorem voigt_source_rejects_strain_index_partial (v : Int) (h10 : v < 10) (h : ¬(1 ≤ v ∧ v ≤ 6)) :
+    excKind (srcCall "e_" [.int v]) = some "RuntimeError" := src_e1_rejects v h10 h
+
+/-- `c_(i, j)` raises RuntimeError for EVERY pair of integers not both in 1..6 — as the model rejects it -/
+theorem voigt_source_rejects_voigt_pair (i j : Int) (h : ¬((1 ≤ i ∧ i ≤ 6) ∧ (1 ≤ j ∧ j ≤ 6))) :
+    excKind (srcCall "c_" [.int i, .int j]) = some "RuntimeError" ∧ Modulus.fromVoigt i j = none :=
+  ⟨src_c2_rejects i j h, c10_reject_voigt i j h⟩
+
+/- Full statement: for ALL integers i j not both in 1..3, `e_(i, j)` raises RuntimeError.  Proved except when both indices are
+negative or both are ≥ 4: there `sorted((i, j))` compares two symbolic magnitudes, which kernel evaluation cannot decide (the
+decided domain 0..4 and the run against CPython cover instances). -/
+theorem voigt_source_rejects_standard_pair_partial (i j : Int) (h : ¬((1 ≤ i ∧ i ≤ 3) ∧ (1 ≤ j ∧ j ≤ 3)))
+    (hneg : ¬(i < 0 ∧ j < 0)) (hbig : ¬(4 ≤ i ∧ 4 ≤ j)) :
+    excKind (srcCall "e_" [.int i, .int j]) = some "RuntimeError" ∧ Strain.fromStandard i j = none :=
+  ⟨src_e2_rejects i j h hneg hbig, c10_reject_strain i j h⟩
+
+/- Full statement: for ALL integers i j k l not all in 1..3, `c_(i, j, k, l)` raises RuntimeError.  Same two exclusions per pair. -/
+theorem voigt_source_rejects_standard_partial (i j k l : Int)
+    (h : ¬((1 ≤ i ∧ i ≤ 3) ∧ (1 ≤ j ∧ j ≤ 3) ∧ (1 ≤ k ∧ k ≤ 3) ∧ (1 ≤ l ∧ l ≤ 3)))
+    (h1 : ¬(i < 0 ∧ j < 0)) (h2 : ¬(4 ≤ i ∧ 4 ≤ j)) (h3 : ¬(k < 0 ∧ l < 0)) (h4 : ¬(4 ≤ k ∧ 4 ≤ l)) :
+    excKind (srcCall "c_" [.int i, .int j, .int k, .int l]) = some "RuntimeError" ∧ Modulus.fromStandard i j k l = none :=
+  ⟨src_c4_rejects i j k l h h1 h2 h3 h4, c10_reject_standard i j k l h⟩
+
+/-- non-vacuity of the symbolic statements, and the messages on a few concrete instances -/
+example : isExcMsg (srcCall "c_" [.int 0, .int 3]) "RuntimeError" "Invalid voigt index 0" = true ∧
+    isExcMsg (srcCall "c_" [.int 1, .int 1, .int 2, .int 4]) "RuntimeError" "Invalid standard index 24" = true ∧
+    isExcMsg (srcCall "e_" [.int (-5), .int 2]) "RuntimeError" "Invalid standard index -52" = true ∧
+    isExc (srcCall "c_" [.int 5]) "RecursionError" = true ∧ isExc (srcCall "c_" [.str (PyLite.codes "1a")]) "ValueError" = true ∧
+    isExc (srcCall "e_" [.int 123]) "TypeError" = true := by
+  decide +kernel
+
+end Source
 
 /-! #### non-vacuity: concrete instances of the hypotheses -/
 
